@@ -24,7 +24,7 @@ fn c10_one(recs: &[Vec<u8>], w: usize, m: usize, threads: usize) -> Option<Vec<(
     let mut want_lines: Vec<String> = Vec::new();
     let mut want_inv: BTreeMap<String, Vec<(String, usize, usize)>> = BTreeMap::new();
     for (i, r) in recs.iter().enumerate() {
-        let id = format!("r{}", i);
+        let id = rec_id(i);
         let mut line = id.clone();
         for (v, a, b) in runs_spec(r, weff(w, r.len(), m), m) {
             let t = text_of(v, m);
@@ -147,6 +147,14 @@ pub fn c10(o: &Opts) -> Outcome {
                 wt.push(("round".into(), round.to_string()));
                 return Outcome { cases, witness: Some(wt) };
             }
+        }
+    }
+    // two records with the same identifier and the same bases (a duplicated read): every run is listed twice, in both outputs
+    {
+        let base: Vec<Vec<u8>> = vec![b"ACGTTGCATTGACC".to_vec(), b"ACGTTGCATTGACC".to_vec(), b"GGATCGGATC".to_vec(), b"GGATCGGATCA".to_vec(), b"TTGACCA".to_vec(), b"TTGACCA".to_vec()];
+        for threads in [1usize, 4] {
+            cases += base.len() as u64;
+            if let Some(wt) = with_ids("dup", || c10_one(&base, 6, 3, threads)) { return Outcome { cases, witness: Some(wt) }; }
         }
     }
     // multi-member gzip input
